@@ -28,6 +28,8 @@ impl Syms {
 }
 
 struct Ctx {
+	/// the function being read belongs to an `impl RawLock for …` (its call record is always emitted)
+	want_calls: bool,
 	syms: Syms,
 	structs: Vec<String>,
 	traits: Vec<String>,
@@ -258,6 +260,21 @@ impl Ctx {
 				own = format!(", own := {}", list(&items));
 			}
 		}
+		// the kill-flag protocol (C12): the full call record of every function of an `impl RawLock`
+		if let (Some(b), false, true) = (body, test_only, self.want_calls) {
+			let mut v = OwnEvents { evs: Vec::new() };
+			v.visit_block(b);
+			let items: Vec<String> = v
+				.evs
+				.iter()
+				.map(|(n, a)| {
+					let i = self.syms.get(&format!("ev:{n}"));
+					let j = if a.is_empty() { 0 } else { self.syms.get(&format!("op:{a}")) };
+					format!("({i}, {j})")
+				})
+				.collect();
+			own.push_str(&format!(", calls := {}", list(&items)));
+		}
 		format!(
 			"{{ name := {name}, vis := {vis}, isUnsafe := {}, isConst := {}, generics := {gens}, wheres := {wheres}, recv := {recv}, params := {}, ret := {ret}, callees := {:?}, testOnly := {test_only}{own} }}",
 			sig.unsafety.is_some(),
@@ -360,11 +377,30 @@ impl<'ast> Visit<'ast> for OwnEvents {
 		self.visit_block(&e.body);
 		self.evs.push(("endfor".into(), String::new()));
 	}
+	fn visit_expr_if(&mut self, e: &'ast syn::ExprIf) {
+		self.visit_expr(&e.cond);
+		self.evs.push(("if".into(), squash(e.cond.to_token_stream())));
+		self.visit_block(&e.then_branch);
+		if let Some((_, els)) = &e.else_branch {
+			self.evs.push(("else".into(), String::new()));
+			self.visit_expr(els);
+		}
+		self.evs.push(("endif".into(), String::new()));
+	}
+	fn visit_expr_return(&mut self, e: &'ast syn::ExprReturn) {
+		if let Some(x) = &e.expr {
+			self.visit_expr(x);
+		}
+		self.evs.push(("return".into(), e.expr.as_ref().map(|x| squash(x.to_token_stream())).unwrap_or_default()));
+	}
 	fn visit_macro(&mut self, m: &'ast syn::Macro) {
 		let mut names = Vec::new();
 		scan_tokens(m.tokens.clone(), &mut names);
 		for n in names {
 			self.evs.push((n, "macro".into()));
+		}
+		if let Some(s) = m.path.segments.last() {
+			self.evs.push((format!("{}!", s.ident), "macro".into()));
 		}
 	}
 }
@@ -538,6 +574,7 @@ impl Walker<'_> {
 				let (gens, wheres) = self.c.generics(&i.generics);
 				let mut fns = Vec::new();
 				let mut assoc = Vec::new();
+				self.c.want_calls = matches!(&i.trait_, Some((None, p, _)) if p.segments.last().map(|s| s.ident == "RawLock").unwrap_or(false));
 				for ii in &i.items {
 					match ii {
 						syn::ImplItem::Fn(f) => {
@@ -552,6 +589,7 @@ impl Walker<'_> {
 						_ => {}
 					}
 				}
+				self.c.want_calls = false;
 				self.c.impls.push(format!(
 					"{{ trait_ := {tr}, selfTy := {self_ty}, isUnsafe := {}, generics := {gens}, wheres := {wheres}, fns := {}, assocTys := {} }}",
 					i.unsafety.is_some(),
@@ -639,7 +677,7 @@ fn main() {
 	let args: Vec<String> = std::env::args().collect();
 	let src = &args[1];
 	let out = &args[2];
-	let mut c = Ctx { syms: Syms::default(), structs: vec![], traits: vec![], impls: vec![], fns: vec![], errors: vec![] };
+	let mut c = Ctx { want_calls: false, syms: Syms::default(), structs: vec![], traits: vec![], impls: vec![], fns: vec![], errors: vec![] };
 	// well-known names always get a code (the rules refer to them even if the sources do not)
 	for n in [
 		"Clone", "Copy", "Default", "Send", "Sync", "PhantomData", "Deref", "DerefMut", "AsRef", "AsMut", "Drop",
@@ -666,9 +704,9 @@ fn main() {
 	] {
 		c.syms.get(n);
 	}
-	// the call and operand names HLV/Static/OwnRules.lean mentions (C16 ownership records)
+	// the call and operand names HLV/Static/OwnRules.lean and KillRules.lean mention (C16 / C12 records)
 	for n in [
-		"ev:Box::from_raw", "ev:Box::leak", "ev:Box::new", "ev:MaybeUninit::uninit", "ev:UnsafeCell::new", "ev:Vec::new", "ev:as_ref", "ev:assume_init", "ev:cast", "ev:cast_const", "ev:cast_mut", "ev:clear", "ev:data_mut", "ev:data_ref", "ev:drop", "ev:endfor", "ev:enumerate", "ev:for", "ev:get", "ev:get_mut", "ev:get_ptrs", "ev:guard", "ev:into_inner", "ev:into_iter", "ev:iter_mut", "ev:map", "ev:mem::forget", "ev:mem::transmute", "ev:ptr::drop_in_place", "ev:read_guard", "ev:sort_by_key", "ev:unwrap_unchecked", "ev:write", "op:&mutself.locks", "op:(i,lock)inself.into_iter().enumerate()", "op:(i,lock)inself.iter_mut().enumerate()", "op:boxed", "op:e", "op:g", "op:guards", "op:guards[0]", "op:guards[i]", "op:iin0..N", "op:lock", "op:locks", "op:self", "op:self.data.cast_mut()", "op:self.locks", "op:self[0]", "op:self[i]",
+		"ev:Box::from_raw", "ev:Box::leak", "ev:Box::new", "ev:MaybeUninit::uninit", "ev:UnsafeCell::new", "ev:Vec::new", "ev:as_ref", "ev:assume_init", "ev:cast", "ev:cast_const", "ev:cast_mut", "ev:clear", "ev:data_mut", "ev:data_ref", "ev:drop", "ev:endfor", "ev:enumerate", "ev:for", "ev:get", "ev:get_mut", "ev:get_ptrs", "ev:guard", "ev:handle_unwind", "ev:into_inner", "ev:into_iter", "ev:is_poisoned", "ev:iter_mut", "ev:lock", "ev:lock_exclusive", "ev:lock_shared", "ev:map", "ev:mem::forget", "ev:mem::transmute", "ev:poison", "ev:ptr::drop_in_place", "ev:raw_try_write", "ev:raw_unlock_write", "ev:raw_write", "ev:read_guard", "ev:sort_by_key", "ev:try_lock", "ev:try_lock_exclusive", "ev:try_lock_shared", "ev:unlock", "ev:unlock_exclusive", "ev:unlock_shared", "ev:unwrap_unchecked", "ev:write", "op:&mutself.locks", "op:(i,lock)inself.into_iter().enumerate()", "op:(i,lock)inself.iter_mut().enumerate()", "op:boxed", "op:e", "op:g", "op:guards", "op:guards[0]", "op:guards[i]", "op:iin0..N", "op:lock", "op:locks", "op:self", "op:self.data.cast_mut()", "op:self.locks", "op:self[0]", "op:self[i]",
 	] {
 		c.syms.get(n);
 	}
